@@ -404,24 +404,32 @@ pub fn known_scenarios(prop: &str) -> Vec<(String, usize, u64)> {
     }
 }
 
-/// known finding (DESIGN.md §11): keys `"1"` and `1` of a stream map collide when a canon stream map is turned into a
-/// JSON object; which group survives depends on hash iteration order, so the value handed to a service differs between runs
+/// regression for a repaired defect (fix: commit in /repo): keys `"1"` and `1` of a stream map collide when a canon stream map is
+/// turned into a JSON object; which group survived depended on hash iteration order, so the value handed to a service differed
+/// between runs.  Now the groups are taken in the order in which the keys first occur, and the later one wins.
 fn c20_canon_map_collision_probe(rep: &mut Report) {
     let a = Peer::new("a");
-    let air = format!(r#"(seq (seq (ap ("1" "a") %m) (ap (1 "b") %m)) (seq (canon "{me}" %m #%c) (call "{me}" ("s" "id") [#%c])))"#, me = a.id);
-    let mut seen: Vec<String> = vec![];
-    for _ in 0..64 {
-        let o = crate::host::run(&RunArgs { air: &air, prev: &[], cur: &[], init_peer_id: &a.id, peer: &a, particle_id: "c20-probe", timestamp: 1, ttl: 1,
-                                 results: &CallResults::new(), limits: Limits::unlimited() });
-        rep.evaluations += 1;
-        if let Some(reqs) = decode_requests(&o.call_requests) {
-            for r in reqs.values() { let args = serde_json::to_string(&decode_args(r)).unwrap(); if !seen.contains(&args) { seen.push(args); } }
+    for (air, want) in [
+        (format!(r#"(seq (seq (ap ("1" "a") %m) (ap (1 "b") %m)) (seq (canon "{me}" %m #%c) (call "{me}" ("s" "id") [#%c])))"#, me = a.id), r#"[{"1":["b"]}]"#),
+        (format!(r#"(seq (seq (ap (1 "b") %m) (seq (ap ("1" "a") %m) (ap (1 "c") %m))) (seq (canon "{me}" %m #%c) (call "{me}" ("s" "id") [#%c])))"#, me = a.id), r#"[{"1":["a"]}]"#),
+        (format!(r#"(seq (seq (ap ("7" "x") %m) (seq (ap (7 "y") %m) (ap ("k" "z") %m))) (seq (canon "{me}" %m obj) (call "{me}" ("s" "id") [obj])))"#, me = a.id), r#"[{"7":"y","k":"z"}]"#),
+    ] {
+        let mut seen: Vec<String> = vec![];
+        for _ in 0..64 {
+            let o = crate::host::run(&RunArgs { air: &air, prev: &[], cur: &[], init_peer_id: &a.id, peer: &a, particle_id: "c20-probe", timestamp: 1, ttl: 1,
+                                     results: &CallResults::new(), limits: Limits::unlimited() });
+            rep.evaluations += 1;
+            if let Some(reqs) = decode_requests(&o.call_requests) {
+                for r in reqs.values() { let args = serde_json::to_string(&decode_args(r)).unwrap(); if !seen.contains(&args) { seen.push(args); } }
+            }
         }
-    }
-    rep.stat_n("c20_probe_distinct_service_arguments", seen.len() as u64);
-    if seen.len() > 1 {
-        rep.oracle_fail(json!({"why": format!("64 runs on identical inputs handed the service different arguments: {}", seen.join(" / ")),
-            "input": {"air": air, "prev_hex": "", "cur_hex": "", "results": {}}, "finding_key": "canon-map-key-collision", "scenario": "known-finding replay"}));
+        rep.stat_n("c20_probe_distinct_service_arguments", seen.len() as u64);
+        if seen.len() != 1 {
+            rep.oracle_fail(json!({"why": format!("64 runs on identical inputs handed the service different arguments (or none): {}", seen.join(" / ")),
+                "input": {"air": air, "prev_hex": "", "cur_hex": "", "results": {}}, "scenario": "canon map key collision (regression)"}));
+        } else if seen[0] != want {
+            rep.stat(&format!("c20_probe_collision_winner_differs_from_first_occurrence_order:{}", seen[0]));
+        }
     }
 }
 
